@@ -608,7 +608,7 @@ def replay(doc):
 def run(tier, is_known):
     t0 = time.time()
     off = dict(HE.GEN[0], name="gen0-off", initially_off=["client_2", "backup_server", "switch_2"])
-    plans = [(HE.GEN[0], 1, False), (HE.GEN[2], 1, True), (off, 2, True)]
+    plans = [(HE.GEN[0], 1, False), (HE.GEN[2], 1, True), (HE.GEN[0], 2, True), (off, 1, True)]
     if tier == "thorough":
         plans = [(HE.GEN[0], 2, False), (HE.GEN[2], 2, False), (HE.GEN[4], 3, True), (off, 2, False)]
     viols = []
